@@ -34,6 +34,10 @@ pub fn h_bytes(k: &[u8], n: usize) -> usize {
 }
 
 pub fn new_state(n: usize) -> State {
+    new_state_ctx(n).0
+}
+
+pub fn new_state_ctx(n: usize) -> (State, Arc<SimulationContext>) {
     let ctx = Arc::new(SimulationContext::new(0, FaultConfig::disabled()));
     let cfg = ShardConfig {
         initial_shards: n,
@@ -43,7 +47,7 @@ pub fn new_state(n: usize) -> State {
         adaptive_replication: false,
         load_check_interval_ms: 10000,
     };
-    ShardedActorState::with_config_and_time_source(cfg, SimulatedTimeSource::new_default(ctx))
+    (ShardedActorState::with_config_and_time_source(cfg, SimulatedTimeSource::new_default(ctx.clone())), ctx)
 }
 
 #[derive(Clone, Debug)]
@@ -663,6 +667,44 @@ async fn run_case(out: &mut Out, ctx: &Ctx, case: &Case) {
     out.sample(json!({"shards": case.n, "class": case.class, "ops": case.ops.iter().take(12).map(|o| o.line()).collect::<Vec<_>>()}));
 }
 
+/// Oracle-only (expiry is not part of the C03 model): the fast/pooled/batch paths never call
+/// `set_time`, so they judge expiry against the clock their shard saw at its last GENERIC
+/// command.  On one shard every generic command refreshes that clock; on N shards only commands
+/// for the same shard do — the answer of `fast_get` after a TTL ran out depends on the shard count.
+async fn stale_clock_probe(out: &mut Out, ctx: &Ctx) {
+    let p = pool();
+    let n = 4;
+    // k: both hashes agree (so the defect is not the routing one); k2: lives on another shard
+    let k = match p.iter().find(|k| ctx.gen(k, n) == h_bytes(k, n)) {
+        Some(k) => k.clone(),
+        None => return,
+    };
+    let k2 = p.iter().find(|x| ctx.gen(x, n) != ctx.gen(&k, n)).unwrap().clone();
+    let mut answers = Vec::new();
+    for shards in [1usize, n] {
+        let (st, sim) = new_state_ctx(shards);
+        let mut c = Command::set(s(&k), sds(b"v"));
+        if let Command::Set { ref mut px, .. } = c {
+            *px = Some(100);
+        }
+        let r0 = r1(&st.execute(&c).await);
+        sim.advance_by(redis_sim::io::Duration::from_millis(200));
+        let r1_ = r1(&st.execute(&Command::Get(s(&k2))).await);
+        let r2 = r1(&st.fast_get(b(&k)).await);
+        let r3 = r1(&st.pooled_fast_get(b(&k)).await);
+        answers.push(vec![r0, r1_, r2, r3]);
+    }
+    out.count("class:stale-clock-probe");
+    out.case(&format!("stale-clock|{}|{}", hex(&k), hex(&k2)), true);
+    if answers[0] != answers[1] {
+        out.violation(
+            "C03:fast-path-stale-clock",
+            &format!("SET {} v PX 100; +200 ms; GET {}; fast_get {}: one shard answers {:?}, {} shards answer {:?}", hex(&k), hex(&k2), hex(&k), answers[0], n, answers[1]),
+            json!({"shards": n, "ops": [format!("SET {} v PX 100", hex(&k)), "advance 200ms", format!("GET {}", hex(&k2)), format!("FGET {}", hex(&k)), format!("PGET {}", hex(&k))], "one_shard": answers[0], "n_shards": answers[1]}),
+        );
+    }
+}
+
 pub fn run(a: &Args) {
     let mut out = Out::new(&a.out);
     let mut rng = Rng::new(a.seed);
@@ -673,6 +715,7 @@ pub fn run(a: &Args) {
         for c in corpus(&ctx) {
             run_case(&mut out, &ctx, &c).await;
         }
+        stale_clock_probe(&mut out, &ctx).await;
         for _ in 0..a.n {
             let mut r = rng.fork();
             let c = random_case(&ctx, &mut r);
